@@ -50,8 +50,15 @@ def data_vals(kind, T):
 
 
 def make_corr(pe, T, pattern, kind):
+    zero_at = None
+    if kind.startswith('zero'):           # cosh data whose central value vanishes exactly at one timeslice
+        zero_at, kind = int(kind[4:]), 'cosh'
     vals = data_vals(kind, T)
     content = [mkobs(pe, ('c15', kind, T, t), vals[t], 0.002 * abs(vals[t]) + 1e-4) if pattern[t] else None for t in range(T)]
+    if zero_at is not None and zero_at < T and content[zero_at] is not None:
+        content[zero_at] = content[zero_at] - content[zero_at].value
+        if content[zero_at].value != 0.0:
+            raise engine.MachineryError('central value not exactly zero')
     return pe.Corr(content)
 
 
@@ -78,10 +85,10 @@ def spec(pe):
     add('second_deriv:log', lambda T: range(1, T - 1), (-1, 0, 1),
         lambda c, t: c[t] * ((np.log(c[t + 1]) - 2 * np.log(c[t]) + np.log(c[t - 1])) + (0.5 * (np.log(c[t + 1]) - np.log(c[t - 1]))) ** 2),
         lambda c, t: pos(c[t - 1]) and pos(c[t]) and pos(c[t + 1]))
-    add('m_eff:log', lambda T: range(0, T - 1), (0, 1), lambda c, t: np.log(c[t] / c[t + 1]), lambda c, t: c[t].value / c[t + 1].value > 0)
-    add('m_eff:logsym', lambda T: range(1, T - 1), (-1, 1), lambda c, t: np.log(c[t - 1] / c[t + 1]) / 2, lambda c, t: c[t - 1].value / c[t + 1].value > 0)
+    add('m_eff:log', lambda T: range(0, T - 1), (0, 1), lambda c, t: np.log(c[t] / c[t + 1]), lambda c, t: c[t + 1].value != 0 and c[t].value / c[t + 1].value > 0)
+    add('m_eff:logsym', lambda T: range(1, T - 1), (-1, 1), lambda c, t: np.log(c[t - 1] / c[t + 1]) / 2, lambda c, t: c[t + 1].value != 0 and c[t - 1].value / c[t + 1].value > 0)
     add('m_eff:arccosh', lambda T: range(1, T - 1), (-1, 0, 1), lambda c, t: np.arccosh((c[t + 1] + c[t - 1]) / (2 * c[t])),
-        lambda c, t: (c[t + 1].value + c[t - 1].value) / (2 * c[t].value) >= 1)
+        lambda c, t: c[t].value != 0 and (c[t + 1].value + c[t - 1].value) / (2 * c[t].value) >= 1)
     return S
 
 
@@ -234,7 +241,7 @@ def _solvable(var, t, T, ratio):
 def build(tier, seed):
     cases = []
     Ts = (4, 5, 6, 7, 8) if tier == 'quick' else (4, 5, 6, 7, 8, 9, 10)
-    kinds = ['cosh', 'exp', 'sinh', 'flip1', 'flip2,3']
+    kinds = ['cosh', 'exp', 'sinh', 'flip1', 'flip2,3', 'zero1', 'zero2']
     for T in Ts:
         pats = [p for p in itertools.product([1, 0], repeat=T) if any(p)]
         for i in range(0, len(pats), 32):
@@ -264,6 +271,8 @@ def run_case(case):
                     for name, sp in S.items():
                         check_formula(pe, acc, C, c, T, pattern, kind, name, sp)
                     for var in ('cosh', 'periodic', 'sinh'):
+                        if kind.startswith('zero'):
+                            continue       # the root variants are examined on the other data kinds
                         if (var == 'sinh') != (kind == 'sinh'):
                             if kind != 'exp':
                                 continue
@@ -318,6 +327,59 @@ def run_plateau(pe, acc, case):
                         acc.fail('plateau:%s' % method, sub, 'plateau(%s) over [%d,%d], pattern %s: %s' % (method, a, b, pattern, bad))
                     else:
                         acc.ok(('pl', T, pattern, a, b, method), True, 'plateau-' + method)
+        # errors from a NON-default analysis (and different autocorrelation from timeslice to timeslice): the fit weights are the errors
+        # the correlator carries; plateau() without auto_gamma leaves them as they are
+        if sum(pattern) >= T - 1:
+            cf = list(range(1, 61))
+            content2 = [pe.Obs([alpha.data('ar1' if t % 2 == 0 else 'white', cf, alpha.rng('c15pa', T, t), 1.0 + 0.01 * ((t * 7) % 5), 0.05)], ['A|r1']) if pattern[t] else None for t in range(T)]
+            for params in ({'S': 0}, {'S': 1.0, 'tau_exp': 4, 'N_sigma': 1}, {'S': 3.5}):
+                C4 = pe.Corr(content2)
+                C4.gamma_method(**params)
+                c4 = [None if x is None else x[0] for x in C4.content]
+                errs = [None if x is None else x.dvalue for x in c4]
+                ins = [t for t in range(T) if c4[t] is not None]
+                sub = dict(case, pattern=list(pattern), params=params)
+                try:
+                    r = C4.plateau([0, T - 1], method='fit')
+                    w = np.array([1 / errs[t] ** 2 for t in ins])
+                    bad = same_entry(r, sum((wi / w.sum()) * c4[t] for wi, t in zip(w, ins)), pe, 1e-7)
+                    if not bad and [None if x is None else x.dvalue for x in c4] != errs:
+                        bad = 'plateau(auto_gamma=False) changed the errors of the correlator it was called on'
+                except Exception as e:
+                    bad = 'raised %s: %s' % (type(e).__name__, e)
+                if bad:
+                    acc.fail('plateau:fit:weights-of-the-carried-errors', sub, 'errors from gamma_method(%s), pattern %s: %s' % (params, pattern, bad))
+                else:
+                    acc.ok(('plw', T, pattern, repr(sorted(params.items()))), True, 'plateau-fit')
+        # a stored range inside 0..T-1 is accepted and used; any other is refused, when it is stored or when it is used
+        if all(pattern):
+            for pr in ([0, T - 1], [T - 1, T - 1], [0, T], [T, T], [T - 1, T], [2, 1], [-1, 2]):
+                for route in ('constructor', 'set_prange'):
+                    sub = dict(case, pattern=list(pattern), prange=pr, route=route)
+                    try:
+                        if route == 'constructor':
+                            C3 = pe.Corr([x[0] for x in C.content], prange=list(pr))
+                        else:
+                            C3 = pe.Corr([x[0] for x in C.content])
+                            C3.set_prange(list(pr))
+                    except Exception:
+                        if 0 <= pr[0] <= pr[1] <= T - 1:
+                            acc.fail('plateau:prange-refused', sub, 'the range %s inside 0..%d was refused (%s)' % (pr, T - 1, route))
+                        else:
+                            acc.ok(('prg', T, tuple(pr), route), True, 'plateau-prange-refused')
+                        continue
+                    C3.gamma_method()
+                    try:
+                        r = C3.plateau(method='avg')
+                        bad = None if 0 <= pr[0] <= pr[1] <= T - 1 else 'accepted, plateau() returned %r' % (r,)
+                        bad = bad or same_entry(r, sum(c[t] for t in range(pr[0], pr[1] + 1)) / (pr[1] - pr[0] + 1), pe, 1e-12)
+                    except Exception as e:
+                        # a range outside 0..T-1 may also be refused when it is used
+                        bad = 'accepted, but plateau() then raises %s: %s' % (type(e).__name__, e) if 0 <= pr[0] <= pr[1] <= T - 1 else None
+                    if bad:
+                        acc.fail('plateau:prange-stored-unusable', sub, 'stored range %s (T=%d, %s): %s' % (pr, T, route, bad))
+                    else:
+                        acc.ok(('prg', T, tuple(pr), route), True, 'plateau-prange')
         # stored plateau range: used when no range is passed, overridden by an explicit one (constructor and set_prange)
         if all(pattern) and T >= 4:
             for route in ('constructor', 'set_prange'):
